@@ -158,6 +158,12 @@ def Stmt.loopBody : Stmt → Stmt
   | .loop _ b _ => b
   | .range _ _ b => b
   | _ => .unrecognised "not a loop"
+def Stmt.loopCond : Stmt → Expr
+  | .loop c _ _ => c
+  | _ => .unrecognised "not a loop"
+def Stmt.loopPost : Stmt → Stmt
+  | .loop _ _ p => p
+  | _ => .unrecognised "not a loop"
 def Stmt.thn : Stmt → Stmt
   | .ite _ _ t _ => t
   | .switchNonfatal _ a _ => a
